@@ -185,6 +185,62 @@ func (eng *Engine) runScans(prop string) []*Oblig {
 					}
 				}
 			}
+		case "method-value-wrapped":
+			// method-value-wrapped METHOD WRAPPER RECVFIELD allowedFn...: every use of METHOD as a value (bound method)
+			// is directly the argument of a call of WRAPPER whose receiver was loaded from field RECVFIELD, inside an allowed function
+			if len(sc.Args) < 3 {
+				bad = append(bad, "malformed scan")
+				break
+			}
+			method, wrapper, recvField := sc.Args[0], sc.Args[1], sc.Args[2]
+			allowed := sc.Args[3:]
+			for _, fn := range fns {
+				for _, b := range fn.Blocks {
+					for _, in := range b.Instrs {
+						mc, ok := in.(*ssa.MakeClosure)
+						if !ok {
+							continue
+						}
+						cf, ok := mc.Fn.(*ssa.Function)
+						if !ok || !strings.HasSuffix(cf.Name(), "$bound") {
+							continue
+						}
+						if relNameBound(cf) != method || fnPkgPath(fn) != sc.Pkg {
+							continue
+						}
+						covered++
+						okUse := eng.fnAllowed(fn, allowed)
+						for _, r := range *mc.Referrers() {
+							if _, isDbg := r.(*ssa.DebugRef); isDbg {
+								continue
+							}
+							var use ssa.Instruction = r
+							// through a ChangeType to http.HandlerFunc-like types
+							if ct, isCT := r.(*ssa.ChangeType); isCT && ct.Referrers() != nil && len(*ct.Referrers()) == 1 {
+								use = (*ct.Referrers())[0]
+							}
+							call, isCall := use.(*ssa.Call)
+							if !isCall || callShort(call) != wrapper || len(call.Common().Args) == 0 {
+								okUse = false
+								continue
+							}
+							recvOK := false
+							if u, isU := call.Common().Args[0].(*ssa.UnOp); isU {
+								if fa, isFA := u.X.(*ssa.FieldAddr); isFA {
+									_, f := fieldAddrOwner(fa)
+									recvOK = f == recvField
+								}
+							}
+							if !recvOK {
+								okUse = false
+							}
+						}
+						if !okUse {
+							bad = append(bad, eng.site(in)+" uses "+method+" as a handler outside "+recvField+"."+wrapper)
+						}
+					}
+				}
+			}
 		case "header-readers":
 			// every read of a forwarding / real-client-IP request header is inside an allowed function
 			allowed := sc.Args
@@ -641,4 +697,25 @@ func ownedObject(v ssa.Value) bool {
 		return ok
 	}
 	return false
+}
+
+
+// relNameBound: "(*T).M" for the synthetic bound-method wrapper "(*T).M$bound".
+func relNameBound(f *ssa.Function) string {
+	n := strings.TrimSuffix(f.Name(), "$bound")
+	if len(f.FreeVars) == 1 {
+		t := f.FreeVars[0].Type()
+		ptr := false
+		if p, ok := t.(*types.Pointer); ok {
+			ptr = true
+			t = p.Elem()
+		}
+		if nt, ok := t.(*types.Named); ok {
+			if ptr {
+				return "(*" + nt.Obj().Name() + ")." + n
+			}
+			return "(" + nt.Obj().Name() + ")." + n
+		}
+	}
+	return n
 }
